@@ -8,6 +8,7 @@ type VerifFlags struct {
 	XferDirs                                                     int
 	Links, Perms, Times, Uid, Gid, Devices, Specials, HardLinks bool
 	Checksum, IgnoreTimes, Delete, Verbose                       bool
+	Rules                                                        []string
 }
 
 // VerifOptions builds an Options value directly (no parsing).
@@ -36,5 +37,6 @@ func VerifOptions(f VerifFlags) *Options {
 	o.ignore_times = b(f.IgnoreTimes)
 	o.delete_mode = b(f.Delete)
 	o.verbose = b(f.Verbose)
+	o.filterRules = f.Rules
 	return o
 }
